@@ -1,5 +1,8 @@
 import BoltonsVerif.C02.Extra
 import BoltonsVerif.C02.HRefine
+import BoltonsVerif.C02.ReentFacts
+import BoltonsVerif.C02.LLFrame
+import BoltonsVerif.C02.LLFrameCalls
 /-
 C02 — property theorems for the LRI / LRU model (statements, short derivations from
 `Proofs` / `Refine` / `Facts`, non-vacuity examples).
@@ -596,6 +599,125 @@ theorem ll_copy_rebuilds_ring {l : LL K V} {cells : Cells K V} (h : Rep l cells)
   obtain ⟨c1, g1, g2⟩ := (Rep.new : Rep (LL.new : LL K V) []).addAll (ringOf cells) hn
   exact ⟨c1, by rw [h.flatten]; exact g1, by simpa [ringOf] using g2⟩
 
+/-! ### several lists in ONE memory (`LLFrame.lean`)
+
+`HCache` gives each cache a memory of its own; in CPython all links live in one heap.  What keeps a cache
+and its copy() independent there is proved here: every `_ll` helper writes only links of the list it is
+called on — its anchor and the links reachable from it (`footprint`) — or links it allocates. -/
+
+/-- on a well-formed list, `_get_link_and_move_to_front_of_ll`, `_set_key_and_add_to_front_of_ll`,
+    `_set_key_and_evict_last_in_ll`, `_remove_from_ll`, `_init_ll` (clear) and `link[VALUE] = value` leave the
+    PREV / NEXT / KEY / VALUE fields of every link that existed before and is not a link of this list untouched -/
+theorem ll_ops_write_only_own_links {l : LL K V} {cells : Cells K V} (h : Rep l cells) (k : K) (v : V) :
+    (∀ l' n, l.moveToFront k = some (l', n) → Touches l l' (footprint l cells) ∧
+        Touches l { l' with val := upd l'.val n (some v) } (footprint l cells)) ∧
+    Touches l (l.addFront k v) (footprint l cells) ∧
+    Touches l (l.evictLast k v).1 (footprint l cells) ∧
+    (∀ l', l.remove k = some l' → Touches l l' (footprint l cells)) ∧
+    Touches l l.reinit (footprint l cells) := by
+  refine ⟨fun l' n hm => ?_, h.touches_addFront k v, h.touches_evictLast k v, fun l' hm => (h.touches_remove hm).1,
+    Rep.touches_reinit l _⟩
+  obtain ⟨t, hn, _⟩ := h.touches_moveToFront hm
+  exact ⟨t, t.trans (Rep.touches_setVal l' hn (some v)) (fun a ha => Or.inl ha)⟩
+
+/-- SEPARATION: two well-formed lists that occupy disjoint links of one memory (a cache and its copy in the
+    CPython heap): a step on the first that writes only its own or new links — by the theorem above: any helper —
+    leaves the second list well formed with exactly the same cells, i.e. the same keys, values and eviction order -/
+theorem ll_disjoint_lists_independent {l1 l1' l2 : LL K V} {c1 c2 : Cells K V} (h2 : Rep l2 c2)
+    (hmem : l2.prev = l1.prev ∧ l2.next = l1.next ∧ l2.key = l1.key ∧ l2.val = l1.val ∧ l2.fresh = l1.fresh)
+    (hdis : ∀ a ∈ footprint l2 c2, a ∉ footprint l1 c1) (ht : Touches l1 l1' (footprint l1 c1)) :
+    Rep { l2 with prev := l1'.prev, next := l1'.next, key := l1'.key, val := l1'.val, fresh := l1'.fresh } c2 ∧
+    ({ l2 with prev := l1'.prev, next := l1'.next, key := l1'.key, val := l1'.val, fresh := l1'.fresh } : LL K V).flatten
+      = (ringOf c2).map (fun p => (some p.1, some p.2)) := by
+  have hr := h2.separate hmem hdis ht
+  exact ⟨hr, hr.flatten⟩
+
+/-- WHOLE public method calls on the pointer-level cache — any history of them, with a re-entrant on_miss of any
+    kind and depth: relative to the list before the history (links `footprint h.ll cells`) only links the list owned
+    then or allocated since are written (`Track.touches`), and its anchor and link table point only to such links -/
+theorem linked_list_calls_write_only_own_links {h : HCache K V} {c : Cache K V} (hs : HSim h c) {cells : Cells K V}
+    (hrep : Rep h.ll cells) (P : List K → K → OmProg K V) (fuel : Nat) (ops : List (Op K V)) :
+    Track h.ll (footprint h.ll cells) (HCache.mach.rrun P fuel h ops).ll ∧
+    ∃ c', HSim (HCache.mach.rrun P fuel h ops) c' := by
+  obtain ⟨c', hr, t⟩ := (HCache.machTrack h.ll (footprint h.ll cells)).rrun P fuel (n := 0)
+    (⟨c, RHSim.zero_iff.2 hs, Track.start hrep⟩ : QT h.ll (footprint h.ll cells) 0 h) ops
+  exact ⟨t, c', hr.1⟩
+
+/-- … hence a cache whose list lives in the same memory on disjoint links (its copy in the CPython heap) is not
+    disturbed by ANY history of calls on this cache: its list stays well formed with the same cells (keys, values,
+    eviction order), and the two lists stay disjoint -/
+theorem linked_list_calls_do_not_disturb_other_lists {h : HCache K V} {c : Cache K V} (hs : HSim h c)
+    {cells c2 : Cells K V} (hrep : Rep h.ll cells) {l2 : LL K V} (h2 : Rep l2 c2)
+    (hmem : l2.prev = h.ll.prev ∧ l2.next = h.ll.next ∧ l2.key = h.ll.key ∧ l2.val = h.ll.val ∧ l2.fresh = h.ll.fresh)
+    (hdis : ∀ a ∈ footprint l2 c2, a ∉ footprint h.ll cells)
+    (P : List K → K → OmProg K V) (fuel : Nat) (ops : List (Op K V)) :
+    Rep { l2 with prev := (HCache.mach.rrun P fuel h ops).ll.prev, next := (HCache.mach.rrun P fuel h ops).ll.next,
+                  key := (HCache.mach.rrun P fuel h ops).ll.key, val := (HCache.mach.rrun P fuel h ops).ll.val,
+                  fresh := (HCache.mach.rrun P fuel h ops).ll.fresh } c2 ∧
+    ∀ cells', Rep (HCache.mach.rrun P fuel h ops).ll cells' →
+      ∀ a ∈ footprint (HCache.mach.rrun P fuel h ops).ll cells', a ∉ footprint l2 c2 := by
+  obtain ⟨t, _⟩ := linked_list_calls_write_only_own_links hs hrep P fuel ops
+  refine ⟨h2.separate hmem hdis t.touches, fun cells' hr' a ha ha2 => ?_⟩
+  rcases t.owns hr' a ha with h1 | h1
+  · exact hdis a ha2 h1
+  · have := h2.bound a ha2
+    rw [hmem.2.2.2.2] at this
+    omega
+
+/-- copy() in ONE memory (`ret = self.__class__(…)`: a new anchor; then one `_set_key_and_add_to_front_of_ll` per
+    link met on the walk of the source): the new list holds the same items in the same eviction order, consists of
+    NEW links only (disjoint from the source's links), and the source list is still well formed, with the same
+    cells, in the memory that now also holds the copy — the copy shares no link with the original -/
+theorem ll_copy_in_one_memory {l : LL K V} {cells : Cells K V} (h : Rep l cells) :
+    ∃ cells', Rep (l.reinit.addAll l.flatten) cells' ∧ ringOf cells' = ringOf cells ∧
+      (∀ a ∈ footprint (l.reinit.addAll l.flatten) cells', a ∉ footprint l cells) ∧
+      Rep (l.inMemoryOf (l.reinit.addAll l.flatten)) cells ∧
+      (l.inMemoryOf (l.reinit.addAll l.flatten)).flatten = l.flatten := by
+  obtain ⟨cells', h1, h2, h3, h4⟩ := h.copy_in_same_memory
+  exact ⟨cells', h1, h2, h3, h4, by rw [h4.flatten, h.flatten]⟩
+
+/-- a source list with two links (the hypothesis `Rep l cells` is satisfiable) -/
+example : ∃ cells : Cells Nat Nat, Rep (((LL.new : LL Nat Nat).addFront 1 5).addFront 2 6) cells ∧
+    ((((LL.new : LL Nat Nat).addFront 1 5).addFront 2 6).reinit.addAll
+      (((LL.new : LL Nat Nat).addFront 1 5).addFront 2 6).flatten).flatten = [(some 1, some 5), (some 2, some 6)] :=
+  ⟨_, (Rep.new.addFront 5 rfl).addFront 6 (by decide), by decide⟩
+
+/-- the hypotheses are satisfiable: a list with one link (anchor 0, link 1) and a second, empty list whose
+    anchor (link 2) was allocated after it in the same memory; a link is added to the second list -/
+example : ∃ (l1 l2 : LL Nat Nat) (c1 c2 : Cells Nat Nat), Rep l1 c1 ∧ Rep l2 c2 ∧
+    (l1.prev = l2.prev ∧ l1.next = l2.next ∧ l1.key = l2.key ∧ l1.val = l2.val ∧ l1.fresh = l2.fresh) ∧
+    (∀ a ∈ footprint l1 c1, a ∉ footprint l2 c2) ∧ c1 = [(1, (1, 5))] ∧ Touches l2 (l2.addFront 7 8) (footprint l2 c2) := by
+  have ha : Rep ((LL.new : LL Nat Nat).addFront 1 5) [(1, (1, 5))] := Rep.new.addFront 5 rfl
+  have hb : Rep ((LL.new : LL Nat Nat).addFront 1 5).reinit [] := Rep.reinit _
+  refine ⟨{ ((LL.new : LL Nat Nat).addFront 1 5).reinit with anchor := 0, table := [(1, 1)] },
+    ((LL.new : LL Nat Nat).addFront 1 5).reinit, [(1, (1, 5))], [], ?_, hb, ⟨rfl, rfl, rfl, rfl, rfl⟩, ?_, rfl,
+    hb.touches_addFront 7 8⟩
+  · refine ha.frame rfl rfl (by decide) (fun a ha' => ?_)
+    simp only [footprint, addrsOf, List.map_cons, List.map_nil, List.mem_cons, List.not_mem_nil, or_false] at ha'
+    rcases ha' with rfl | rfl <;> decide
+  · intro a ha'
+    simp only [footprint, addrsOf, List.map_cons, List.map_nil, List.mem_cons, List.not_mem_nil, or_false] at ha'
+    rcases ha' with rfl | rfl <;> decide
+
+/-- the hypotheses of `linked_list_calls_do_not_disturb_other_lists` are satisfiable: an empty cache whose anchor
+    (link 2) lies in a memory that already holds another list (anchor 0, link 1 with key 1) -/
+example : ∃ (h : HCache Nat Nat) (c : Cache Nat Nat) (cells c2 : Cells Nat Nat) (l2 : LL Nat Nat),
+    HSim h c ∧ Rep h.ll cells ∧ Rep l2 c2 ∧
+    (l2.prev = h.ll.prev ∧ l2.next = h.ll.next ∧ l2.key = h.ll.key ∧ l2.val = h.ll.val ∧ l2.fresh = h.ll.fresh) ∧
+    (∀ a ∈ footprint l2 c2, a ∉ footprint h.ll cells) ∧ c2 = [(1, (1, 5))] := by
+  have ha : Rep ((LL.new : LL Nat Nat).addFront 1 5) [(1, (1, 5))] := Rep.new.addFront 5 rfl
+  have hb : Rep ((LL.new : LL Nat Nat).addFront 1 5).reinit [] := Rep.reinit _
+  refine ⟨⟨false, 2, none, [], ((LL.new : LL Nat Nat).addFront 1 5).reinit, 0, 0, 0, []⟩, Cache.initP false 2 none, [],
+    [(1, (1, 5))], { ((LL.new : LL Nat Nat).addFront 1 5).reinit with anchor := 0, table := [(1, 1)] },
+    ⟨rfl, rfl, rfl, rfl, rfl, rfl, rfl, rfl, Inv.initP false 2 none (by decide), [], hb, rfl⟩, hb, ?_,
+    ⟨rfl, rfl, rfl, rfl, rfl⟩, ?_, rfl⟩
+  · refine ha.frame rfl rfl (by decide) (fun a ha' => ?_)
+    simp only [footprint, addrsOf, List.map_cons, List.map_nil, List.mem_cons, List.not_mem_nil, or_false] at ha'
+    rcases ha' with rfl | rfl <;> decide
+  · intro a ha'
+    simp only [footprint, addrsOf, List.map_cons, List.map_nil, List.mem_cons, List.not_mem_nil, or_false] at ha'
+    rcases ha' with rfl | rfl <;> decide
+
 /-! ### non-vacuity: concrete histories with evictions (keys, values : Nat) -/
 
 /-- LRU, max_size 2: set 1, set 2, look 1 up, set 3 -> 2 (not 1) is evicted -/
@@ -667,5 +789,316 @@ example : (hreach false 2 (none : Option (Nat → OmRes Nat))
 /-- hypotheses of `full_insert_evicts_ring_head` are satisfiable: a full reachable cache -/
 example : let c := run (Cache.initP true 2 (none : Option (Nat → OmRes Nat))) [.setitem 1 5, .setitem 2 6, .getitem 1]
     lookup 3 c.d = none ∧ ¬ c.d.length < c.max ∧ c.ring = [(2, 6), (1, 5)] := by decide
+
+/-! ### a re-entrant on_miss (`Reent.lean`)
+
+`on_miss` is a strategy table `P`: `P log k` — what the callback does when called with `k` after having been
+called with the keys `log` — is a tree of dict-API calls on the cache that is waiting for its result (the
+RLock allows them), each chosen according to what the previous ones returned or raised (so: any branching,
+any `try … except`), ending in return / raise (`OmProg`).  `fuel` is the nesting depth at which the callback
+raises instead of running (CPython: RecursionError); every theorem holds for EVERY strategy table and EVERY
+depth.  The reference cache runs the same program against itself (`Ref.mach`): nested lookups are
+lookups, nested assignments are assignments, and the value on_miss finally returns is assigned. -/
+
+/-- the caches after history `ops` on a fresh `LRI`/`LRU(max_size=max, on_miss=P)`; `om` is the value of the
+    `on_miss` attribute (only ever tested against None; the callback itself is `P`) -/
+abbrev rreach (lru : Bool) (max : Nat) (om : K → OmRes V) (P : List K → K → OmProg K V) (fuel : Nat) (ops : List (WOp K V)) : List (Cache K V) :=
+  wrunG (rwstep P fuel) [Cache.initP lru max (some om)] ops
+
+/-- the same history on the reference cache -/
+abbrev rrefReach (lru : Bool) (max : Nat) (om : K → OmRes V) (P : List K → K → OmProg K V) (fuel : Nat) (ops : List (WOp K V)) : List (Ref K V) :=
+  wrunG (Ref.rwstep P fuel) [Ref.initP lru max (some om)] ops
+
+/-- … and on the pointer-level caches -/
+abbrev rhreach (lru : Bool) (max : Nat) (om : K → OmRes V) (P : List K → K → OmProg K V) (fuel : Nat) (ops : List (WOp K V)) : List (HCache K V) :=
+  wrunG (rhwstep P fuel) [HCache.initP lru max (some om)] ops
+
+/-- with a re-entrant on_miss the caches still simulate the reference caches after every history, and
+    every call returns what the reference returns -/
+theorem reentrant_refines_ref (lru : Bool) (max : Nat) (hmax : 1 ≤ max) (om : K → OmRes V) (P : List K → K → OmProg K V) (fuel : Nat)
+    (ops : List (WOp K V)) :
+    WSim (rreach lru max om P fuel ops) (rrefReach lru max om P fuel ops) ∧
+    (woutsG (rwstep P fuel) [Cache.initP lru max (some om)] ops).map Out.shape =
+      (woutsG (Ref.rwstep P fuel) [Ref.initP lru max (some om)] ops).map Out.shape := by
+  have h0 := WSim.toRel.1 (WSim.single (Sim.initP lru max (some om) hmax))
+  have := WRel.run (fun _ _ op hw => WSim.rwstep P fuel hw op) h0 ops
+  exact ⟨WSim.toRel.2 this.1, this.2⟩
+
+/-- contents (in dict order), the three counters and the sequence of on_miss calls (nested calls included,
+    in call order) equal the reference cache's -/
+theorem reentrant_contents_eq_ref (lru : Bool) (max : Nat) (hmax : 1 ≤ max) (om : K → OmRes V) (P : List K → K → OmProg K V) (fuel : Nat)
+    (ops : List (WOp K V)) :
+    (rreach lru max om P fuel ops).map (·.d) = (rrefReach lru max om P fuel ops).map (·.ents) ∧
+    (rreach lru max om P fuel ops).map (fun c => (c.hit, c.miss, c.soft, c.omLog)) =
+      (rrefReach lru max om P fuel ops).map (fun s => (s.hit, s.miss, s.soft, s.omLog)) :=
+  ⟨(reentrant_refines_ref lru max hmax om P fuel ops).1.contents, (reentrant_refines_ref lru max hmax om P fuel ops).1.counters⟩
+
+/-- dict, key->link table and ring stay in step, the size never exceeds max_size, soft_miss_count <=
+    miss_count, and the ring is the contents in the order of the reference's stamps — whatever on_miss
+    does to the cache while a lookup is waiting for it -/
+theorem reentrant_structures_in_step (lru : Bool) (max : Nat) (hmax : 1 ≤ max) (om : K → OmRes V) (P : List K → K → OmProg K V) (fuel : Nat)
+    (ops : List (WOp K V)) (c : Cache K V) (hc : c ∈ rreach lru max om P fuel ops) :
+    c.ring.Perm c.d ∧ (keys c.ring).Nodup ∧ (keys c.d).Nodup ∧ (∀ k, lookup k c.d = lookup k c.ring) ∧
+    c.d.length ≤ max ∧ c.max = max ∧ c.lru = lru ∧ c.soft ≤ c.miss ∧
+    ∃ s ∈ rrefReach lru max om P fuel ops, c.d = s.ents ∧ c.ring.Pairwise (fun a b => s.stamp a.1 < s.stamp b.1) := by
+  obtain ⟨s, hs, h⟩ := (reentrant_refines_ref lru max hmax om P fuel ops).1.of_mem hc
+  have hcfg := rwrun_config P fuel (w := [Cache.initP lru max (some om)]) (cfg := (lru, max, some om))
+    (by intro c hc; simp at hc; subst hc; rfl) ops c hc
+  simp only [Cache.config, Prod.mk.injEq] at hcfg
+  have hi := h.inv
+  exact ⟨hi.sync.perm.symm, hi.sync.nr, hi.sync.nd, hi.sync.agree, hcfg.2.1 ▸ hi.cap, hcfg.2.1, hcfg.1, hi.soft_le,
+    s, hs, h.d, h.sorted⟩
+
+/-- the copy stays independent under a re-entrant on_miss: a call on one cache of the world — whatever its
+    callback does to THAT cache meanwhile — changes no other cache (ring model and pointer-level model) -/
+theorem reentrant_copy_independent (P : List K → K → OmProg K V) (fuel : Nat) (i j : Nat) (op : Op K V) (hne : j ≠ i) :
+    (∀ (w : List (Cache K V)), j < w.length → (rwstep P fuel w (.on i op)).1[j]? = w[j]?) ∧
+    (∀ (w : List (HCache K V)), j < w.length → (rhwstep P fuel w (.on i op)).1[j]? = w[j]?) :=
+  ⟨fun w hj => rwstepG_others _ _ w i op j hj hne, fun w hj => rwstepG_others _ _ w i op j hj hne⟩
+
+/-- "same eviction order", observably, under a re-entrant on_miss that keeps no state of its own: whatever is
+    done to the copy and to the original from now on — the callback working on whichever cache called it —, both
+    hold the same contents in the same orders after every history and every further call returns the same result
+    (a callback WITH state may of course tell the two apart: the copy starts with an empty call history) -/
+theorem reentrant_copy_behaves_like_source (c : Cache K V) (P0 : K → OmProg K V) (fuel : Nat) (ops : List (Op K V)) :
+    (Cache.mach.rrun (fun _ => P0) fuel c.copied ops).d = (Cache.mach.rrun (fun _ => P0) fuel c ops).d ∧
+    (Cache.mach.rrun (fun _ => P0) fuel c.copied ops).ring = (Cache.mach.rrun (fun _ => P0) fuel c ops).ring ∧
+    ∀ op, (Cache.mach.rstep (fun _ => P0) fuel (Cache.mach.rrun (fun _ => P0) fuel c.copied ops) op).2.shape =
+          (Cache.mach.rstep (fun _ => P0) fuel (Cache.mach.rrun (fun _ => P0) fuel c ops) op).2.shape := by
+  have h := (SameCore.copied c).rrun P0 fuel ops
+  refine ⟨h.d, h.ring, fun op => ?_⟩
+  rw [Cache.rstep_noLog]
+  exact (SameCore.mach.rstep (fun _ => P0) fuel (n := 0) h op).2.shape_eq
+
+/-- one public call with a re-entrant on_miss keeps the representation invariant (so: size bound, no
+    duplicate link, dict = ring as mappings), at any depth, also when the callback raises half-way -/
+theorem reentrant_step_inv {c : Cache K V} (hi : Inv c) (P : List K → K → OmProg K V) (fuel : Nat) (op : Op K V) :
+    Inv (Cache.mach.rstep P fuel c op).1 ∧ (Cache.mach.rstep P fuel c op).1.max = c.max :=
+  ⟨(Cache.machInv.rstep P fuel (InvN.zero_iff.2 hi) op).1.1,
+   by have := ((Cache.machConfig c.config).rstep P fuel (n := 0) rfl op).1
+      simp only [Cache.config, Prod.mk.injEq] at this; exact this.2.1⟩
+
+/-- a lookup that finds the key does not call on_miss -/
+theorem reentrant_found_is_hit {c : Cache K V} (hi : Inv c) (P : List K → K → OmProg K V) (fuel : Nat) {k : K} {v : V}
+    (hk : lookup k c.d = some v) :
+    Cache.mach.rget P fuel c k = c.getitem k ∧ (c.getitem k).2 = .val v ∧ (c.getitem k).1.omLog = c.omLog ∧
+    (c.getitem k).1.hit = c.hit + 1 ∧ (c.getitem k).1.miss = c.miss := by
+  have hr : lookup k c.ring = some v := by rw [← hi.sync.agree]; exact hk
+  refine ⟨Cache.rget_found P fuel hr, ?_⟩
+  rw [Cache.getitem_hit hr]
+  exact ⟨rfl, rfl, rfl, rfl⟩
+
+/-- every call that is not a lookup (item set / del, update, |=, pop, popitem, clear, copy, in, len, iteration,
+    ==, !=) is literally the call of the plain model, on all three machines: all theorems above about these calls
+    (removed keys are gone, a full insert evicts the ring head, copy / == / update …) hold verbatim for a cache whose
+    on_miss is re-entrant; only item get / get / setdefault go through the callback interpreter -/
+theorem reentrant_nonlookup_is_plain (P : List K → K → OmProg K V) (fuel : Nat) (op : Op K V) (hop : op.isLookup = false) :
+    (∀ c : Cache K V, Cache.mach.rstep P fuel c op = step c op) ∧
+    (∀ h : HCache K V, HCache.mach.rstep P fuel h op = hstep h op) ∧
+    (∀ s : Ref K V, Ref.mach.rstep P fuel s op = Ref.step s op) := by
+  refine ⟨fun c => ?_, fun h => ?_, fun s => ?_⟩ <;>
+    (cases op <;> first | rfl | simp [Op.isLookup] at hop)
+
+/-- with a re-entrant on_miss, too, on_miss is called exactly for lookups of absent keys: a call that is not
+    a lookup and a lookup that finds its key add nothing to the log of on_miss calls (the latter is one hit, no
+    miss); a lookup of an absent key enters on_miss with THAT key first — whatever the callback does then
+    (nested lookups included) only extends the log — and counts at least the one miss -/
+theorem reentrant_on_miss_called_iff_absent {c : Cache K V} (hi : Inv c) (P : List K → K → OmProg K V) (fuel : Nat) (op : Op K V) :
+    match op.lookupKey with
+    | none => (Cache.mach.rstep P fuel c op).1.omLog = c.omLog ∧ (Cache.mach.rstep P fuel c op).1.miss = c.miss ∧
+              (Cache.mach.rstep P fuel c op).1.hit = c.hit
+    | some k =>
+      ((lookup k c.d).isSome → (Cache.mach.rstep P fuel c op).1.omLog = c.omLog ∧
+          (Cache.mach.rstep P fuel c op).1.hit = c.hit + 1 ∧ (Cache.mach.rstep P fuel c op).1.miss = c.miss) ∧
+      (lookup k c.d = none → (∃ l, (Cache.mach.rstep P fuel c op).1.omLog = c.omLog ++ k :: l) ∧
+          c.miss + 1 ≤ (Cache.mach.rstep P fuel c op).1.miss ∧ c.hit ≤ (Cache.mach.rstep P fuel c op).1.hit) := by
+  cases hop : op.lookupKey with
+  | none =>
+    have hs : Cache.mach.rstep P fuel c op = step c op := by
+      cases op <;> first | rfl | simp [Op.lookupKey] at hop
+    have := step_nonlookup c op hop
+    simp only [hs]
+    exact ⟨this.2.2.2, this.2.1, this.1⟩
+  | some k =>
+    obtain ⟨h1, h2, h3⟩ := Cache.rstep_lookup_log P fuel c hop
+    simp only [h1, h2, h3]
+    refine ⟨fun hs => ?_, fun hk => ?_⟩
+    · obtain ⟨v, hv⟩ := Option.isSome_iff_exists.1 hs
+      have hr : lookup k c.ring = some v := by rw [← hi.sync.agree]; exact hv
+      rw [Cache.rget_found P fuel hr, Cache.getitem_hit hr]
+      exact ⟨rfl, rfl, rfl⟩
+    · have hr : lookup k c.ring = none := by rw [← hi.sync.agree]; exact hk
+      exact Cache.rget_absent_log P fuel hr
+
+/-- the value finally cached is the one on_miss RETURNED: when the run of on_miss(k) ends
+    (state `body`) by returning `v`, the lookup answers `v` and `body[k] = v` is executed by the full
+    `__setitem__` — whether the program stored `k` itself (re-assignment of the present key: one link,
+    moved to the newest position), dropped it again, or filled the cache (insertion, evicting the oldest
+    key): afterwards `k ↦ v` is in the cache, it is the most recent key, and the invariant holds -/
+theorem reentrant_on_miss_result_cached {c : Cache K V} (hi : Inv c) (P : List K → K → OmProg K V) (n : Nat) {k : K} {v : V}
+    {body : Cache K V} (hk : lookup k c.d = none)
+    (hbody : runProg (Cache.mach.rstep P n) (Cache.mach.missed c k) (P c.omLog k) = (body, .ret v)) :
+    Cache.mach.rget P (n + 1) c k = (body.setitem k v, .val v) ∧
+    lookup k (body.setitem k v).d = some v ∧ (body.setitem k v).ring.getLast? = some (k, v) ∧
+    Inv (body.setitem k v) ∧ (body.setitem k v).d.length ≤ c.max ∧ body.soft + 1 ≤ body.miss := by
+  have hr : lookup k c.ring = none := by rw [← hi.sync.agree]; exact hk
+  have hm : InvN 1 (Cache.mach.missed c k) := Cache.machInv.missed k (InvN.zero_iff.2 hi)
+  have hb := Cache.machInv.runBody P n (P c.omLog k) hm
+  have hcfg := (Cache.machConfig c.config).runBody P n (P c.omLog k) (n := 0) (c := Cache.mach.missed c k) rfl
+  rw [hbody] at hb hcfg
+  simp only [Cache.config, Prod.mk.injEq] at hcfg
+  have hset := Cache.setitem_inv hb.1 k v
+  refine ⟨?_, setitem_lookup_self hb.1 k v, assignment_refreshes hb.1 k v, hset, ?_, ?_⟩
+  · rw [Cache.rget_absent P n hr hbody]; rfl
+  · have := hset.cap; rw [setitem_max, hcfg.2.1] at this; exact this
+  · exact hb.2
+
+/-- an on_miss that raises AFTER mutating the cache (its own `raise`, an exception of one of its calls that it
+    does not catch — e.g. `del` of an absent key —, or the depth guard): the exception propagates out of `c[k]`
+    (KeyError is swallowed by get / setdefault as usual), the lookup is a miss, nothing is stored on top of
+    what the program did itself, and the cache is left in a state that satisfies the invariant -/
+theorem reentrant_on_miss_raises_after_mutating {c : Cache K V} (hi : Inv c) (P : List K → K → OmProg K V) (n : Nat) {k : K}
+    {body : Cache K V} {r : OmRes V} (hk : lookup k c.d = none)
+    (hbody : runProg (Cache.mach.rstep P n) (Cache.mach.missed c k) (P c.omLog k) = (body, r)) :
+    (r = .keyError → Cache.mach.rget P (n + 1) c k = (body, .keyError)) ∧
+    (r = .error → Cache.mach.rget P (n + 1) c k = (body, .raised)) ∧
+    Cache.mach.rget P 0 c k = ({ c with miss := c.miss + 1, omLog := c.omLog ++ [k] }, .raised) ∧
+    Inv body ∧ body.soft + 1 ≤ body.miss ∧ body.max = c.max := by
+  have hr : lookup k c.ring = none := by rw [← hi.sync.agree]; exact hk
+  have hm : InvN 1 (Cache.mach.missed c k) := Cache.machInv.missed k (InvN.zero_iff.2 hi)
+  have hb := Cache.machInv.runBody P n (P c.omLog k) hm
+  have hcfg := (Cache.machConfig c.config).runBody P n (P c.omLog k) (n := 0) (c := Cache.mach.missed c k) rfl
+  rw [hbody] at hb hcfg
+  simp only [Cache.config, Prod.mk.injEq] at hcfg
+  refine ⟨fun he => ?_, fun he => ?_, Cache.rget_absent_zero P hr, hb.1, hb.2, hcfg.2.1⟩
+  · subst he; rw [Cache.rget_absent P n hr hbody]; rfl
+  · subst he; rw [Cache.rget_absent P n hr hbody]; rfl
+
+/-- a callback that makes no calls is the plain on_miss of the theorems above: the two models agree call by
+    call (depth >= 1) -/
+theorem reentrant_pure_is_plain (P : List K → K → OmProg K V) (f : K → OmRes V) (hP : ∀ lg k, P lg k = .done (f k))
+    (n : Nat) (c : Cache K V) (hom : c.onMiss = some f) (op : Op K V) : Cache.mach.rstep P (n + 1) c op = step c op :=
+  Cache.rstep_pure P f hP n c hom op
+
+/-- the nesting depth `fuel` only matters for callbacks that look keys up themselves: a callback none of whose
+    calls is an item get / get / setdefault — whatever its other calls answer; e.g. the self-priming loader —
+    never re-enters on_miss, and every depth >= 1 gives the same calls, on all three machines -/
+theorem reentrant_depth_irrelevant_without_lookups (P : List K → K → OmProg K V) (hP : ∀ lg k, (P lg k).NoLookup) (n : Nat) :
+    Cache.mach.rstep P (n + 1) = Cache.mach.rstep P 1 ∧ HCache.mach.rstep P (n + 1) = HCache.mach.rstep P 1 ∧
+    Ref.mach.rstep P (n + 1) = Ref.mach.rstep P 1 := by
+  unfold Mach.rstep
+  exact ⟨by rw [Mach.rget_depth_irrelevant _ P hP], by rw [Mach.rget_depth_irrelevant _ P hP],
+    by rw [Mach.rget_depth_irrelevant _ P hP]⟩
+
+/-- … and in general the depth beyond what a run needs is irrelevant: if `c[k]`, run at depth `n`, never reaches
+    the depth guard (`safeGet`: every lookup the callbacks make, at every level, either finds its key or still has
+    depth left), then at every greater depth it is exactly the same run with the same result — the guard is only
+    an artefact for callbacks that recurse for ever; for all three machines -/
+theorem reentrant_depth_beyond_need_irrelevant (P : List K → K → OmProg K V) (n m : Nat) (k : K) :
+    (∀ c : Cache K V, Cache.mach.safeGet P n c k → Cache.mach.rget P (n + m) c k = Cache.mach.rget P n c k) ∧
+    (∀ h : HCache K V, HCache.mach.safeGet P n h k → HCache.mach.rget P (n + m) h k = HCache.mach.rget P n h k) ∧
+    (∀ s : Ref K V, Ref.mach.safeGet P n s k → Ref.mach.rget P (n + m) s k = Ref.mach.rget P n s k) :=
+  ⟨fun c h => (Cache.mach.rget_stable_all P n c k h m).1, fun c h => (HCache.mach.rget_stable_all P n c k h m).1,
+   fun c h => (Ref.mach.rget_stable_all P n c k h m).1⟩
+
+/-- the pointer-level caches (real links, PREV / NEXT, rotating anchor) simulate the ring-level caches under a
+    re-entrant on_miss too, with equal results: a program that stores the key itself leaves ONE link for it -/
+theorem reentrant_linked_list_refines_ring (lru : Bool) (max : Nat) (hmax : 1 ≤ max) (om : K → OmRes V) (P : List K → K → OmProg K V) (fuel : Nat)
+    (ops : List (WOp K V)) :
+    HWSim (rhreach lru max om P fuel ops) (rreach lru max om P fuel ops) ∧
+    (woutsG (rhwstep P fuel) [HCache.initP lru max (some om)] ops).map Out.shape =
+      (woutsG (rwstep P fuel) [Cache.initP lru max (some om)] ops).map Out.shape := by
+  have h0 := HWSim.toRel.1 (HWSim.single (HSim.initP lru max (some om) hmax))
+  have := WRel.run (fun _ _ op hw => HWSim.rwstep P fuel hw op) h0 ops
+  exact ⟨HWSim.toRel.2 this.1, this.2⟩
+
+/-- … hence: never more than max_size items, a well-formed circular list whose walk from the anchor is the
+    ring, and the results of the reference cache -/
+theorem reentrant_linked_list_wellformed (lru : Bool) (max : Nat) (hmax : 1 ≤ max) (om : K → OmRes V) (P : List K → K → OmProg K V) (fuel : Nat)
+    (ops : List (WOp K V)) :
+    (∀ h ∈ rhreach lru max om P fuel ops, ∃ c ∈ rreach lru max om P fuel ops, ∃ cells, Rep h.ll cells ∧
+      ringOf cells = c.ring ∧ h.d = c.d ∧ h.d.length ≤ max ∧
+      h.ll.flatten = c.ring.map (fun p => (some p.1, some p.2))) ∧
+    (woutsG (rhwstep P fuel) [HCache.initP lru max (some om)] ops).map Out.shape =
+      (woutsG (Ref.rwstep P fuel) [Ref.initP lru max (some om)] ops).map Out.shape := by
+  have hw := reentrant_linked_list_refines_ring lru max hmax om P fuel ops
+  refine ⟨fun h hh => ?_, hw.2.trans (reentrant_refines_ref lru max hmax om P fuel ops).2⟩
+  obtain ⟨i, hi⟩ := List.mem_iff_getElem?.1 hh
+  rcases hw.1.get i with ⟨h1, _⟩ | ⟨a, c, h1, h2, hs⟩
+  · rw [h1] at hi; cases hi
+  · rw [h1] at hi; cases hi
+    have hc : c ∈ rreach lru max om P fuel ops := List.mem_of_getElem? h2
+    obtain ⟨cells, hrep, hring⟩ := hs.rep
+    have hsz := (reentrant_structures_in_step lru max hmax om P fuel ops c hc).2.2.2.2.1
+    exact ⟨c, hc, cells, hrep, hring, hs.d, hs.d ▸ hsz, by rw [hrep.flatten, hring]⟩
+
+/-! non-vacuity: re-entrant on_miss programs (keys, values : Nat) -/
+
+/-- the self-priming loader of seeded change C02-8: on_miss(k) stores `k ↦ 9` itself and returns 2k+1 -/
+def selfPriming : List Nat → Nat → OmProg Nat Nat := fun _ k => .ofList [(false, .setitem k 9)] (.ret (2 * k + 1))
+
+/-- it makes no lookups (the hypothesis of `reentrant_depth_irrelevant_without_lookups` is satisfiable) -/
+example : ∀ lg k, (selfPriming lg k).NoLookup := by
+  intro lg k
+  refine .call _ _ rfl (fun o => ?_)
+  cases o <;> exact .done _
+
+/-- … so depth 1 is enough for it, on any cache and key (hypothesis of `reentrant_depth_beyond_need_irrelevant`) -/
+example (c : Cache Nat Nat) (k : Nat) : Cache.mach.safeGet selfPriming 1 c k := by
+  cases hf : (Cache.mach (K := Nat) (V := Nat)).find c k with
+  | true => exact Or.inl hf
+  | false => exact Or.inr ⟨trivial, by cases ((Cache.mach (K := Nat) (V := Nat)).stepWith _ _ _).2 <;> trivial⟩
+
+/-- LRU, max_size 3: load 1, 2, 3 through the self-priming loader — three entries, one link each, the returned
+    values cached; look 1 up, insert 4: 2 (the oldest) is evicted -/
+example : (rreach true 3 (fun _ => .keyError) selfPriming 3
+    [.on 0 (.getitem 1), .on 0 (.getitem 2), .on 0 (.getitem 3), .on 0 (.getitem 1), .on 0 (.setitem 4 0)]).map
+      (fun c => (c.d, c.ring, c.hit, c.miss, c.omLog))
+    = [([(1, 3), (3, 7), (4, 0)], [(3, 7), (1, 3), (4, 0)], 1, 3, [1, 2, 3])] := by decide
+
+/-- the same on the pointer-level model: three links besides the anchor -/
+example : (rhreach true 3 (fun _ => .keyError) selfPriming 3
+    [.on 0 (.getitem 1), .on 0 (.getitem 2), .on 0 (.getitem 3)]).map (fun h => (h.d, h.ll.flatten, h.ll.fresh))
+    = [([(1, 3), (2, 5), (3, 7)], [(some 1, some 3), (some 2, some 5), (some 3, some 7)], 4)] := by decide
+
+/-- a loader that looks the next key up (nested misses) until the depth guard (fuel 2) raises: three misses, no
+    hit, nothing cached, the exception propagates; with `get` the same (ValueError is not swallowed) -/
+example : (rreach false 2 (fun _ => .keyError) (fun _ (k : Nat) => .ofList [(false, .getitem (k + 1))] (.ret 5)) 2 [.on 0 (.get 0 7)]).map
+      (fun c => (c.d, c.miss, c.soft, c.omLog)) = [([], 3, 0, [0, 1, 2])] := by decide
+
+/-- a loader that fills the cache beyond capacity and then raises KeyError (`del` of an absent key): `get`
+    answers the default, one miss and one soft miss, the mutations stay, the size bound holds -/
+example : (rreach false 2 (fun _ => .keyError) (fun _ (_ : Nat) => .ofList [(false, .update (.pairs [(1, 1), (2, 2), (3, 3)]) []), (false, .delitem 9)] (.ret 5)) 3
+    [.on 0 (.get 0 7)]).map (fun c => (c.d, c.ring, c.miss, c.soft)) = [([(2, 2), (3, 3)], [(2, 2), (3, 3)], 1, 1)] := by decide
+
+/-- a callback that catches the KeyError of its own `del` (`try: del c[9] except KeyError: pass`) and a stateful
+    one (returns 100 + the number of earlier calls): both are strategies; nothing propagates, the values returned
+    are cached -/
+example : (rreach true 2 (fun _ => .keyError)
+      (fun (lg : List Nat) (k : Nat) => .ofList [(true, .delitem 9), (false, .setitem (k + 10) 1)] (.ret (100 + lg.length))) 3
+    [.on 0 (.getitem 1), .on 0 (.getitem 2)]).map (fun c => (c.d, c.miss, c.omLog))
+    = [([(12, 1), (2, 101)], 2, [1, 2])] := by decide
+
+/-- a callback that BRANCHES on what it sees: it looks whether key 1 is in the cache and stores 7 under key 5 only
+    if it is not -/
+example : (rreach false 3 (fun _ => .keyError)
+      (fun _ (_ : Nat) => .call (.contains 1) fun o =>
+        match o with
+        | .bool true => .done (.ret 0)
+        | _ => .call (.setitem 5 7) fun _ => .done (.ret 0)) 3
+    [.on 0 (.getitem 2), .on 0 (.setitem 1 1), .on 0 (.delitem 5), .on 0 (.getitem 3)]).map (fun c => c.d)
+    = [[(2, 0), (1, 1), (3, 0)]] := by decide
+
+/-- what the example below shows of a callback's final state -/
+def bodySummary (r : Cache Nat Nat × OmRes Nat) : List (Nat × Nat) × List (Nat × Nat) × OmRes Nat × List (Nat × Nat) :=
+  (r.1.d, r.1.ring, r.2, (r.1.setitem 4 1).ring)
+
+/-- hypotheses of `reentrant_on_miss_result_cached`: the callback stores the key and fills the cache; the
+    returned value replaces the stored one and the key is the most recent -/
+example : bodySummary
+    (runProg (Cache.mach.rstep (fun _ (k : Nat) => OmProg.ofList [(false, .setitem k 9), (false, .setitem 7 7)] (.ret 1)) 1)
+      (Cache.mach.missed (Cache.initP true 2 (none : Option (Nat → OmRes Nat))) 4)
+      (OmProg.ofList [(false, .setitem 4 9), (false, .setitem 7 7)] (.ret 1)))
+    = ([(4, 9), (7, 7)], [(4, 9), (7, 7)], .ret 1, [(7, 7), (4, 1)]) := by decide
 
 end C02
